@@ -619,6 +619,18 @@ func c03Control(env *fw.Env, i int64, kind int, v uint8) {
 				out = append(out, c)
 			}
 		}
+		// a request that is not pristine: re-stamped twice (ending on the same session id and system bytes), and decoded
+		// from a frame whose header bytes 2 and 3 - unused in a .req - carry junk, as a peer may send it. The response
+		// is a frame of its own: those bytes must not leak into it.
+		out = append(out, m.WithSessionID(^m.SessionID()).WithSystemBytes([4]byte{9, 9, 9, 9}).WithSessionID(m.SessionID()).WithSystemBytes(m.SystemBytes()))
+		raw := m.ToBytes()
+		raw[4+2], raw[4+3] = 0x5A, ^v
+		if d, err := hsms.DecodeHSMSMessage(raw); err == nil {
+			if c, ok := d.(*hsms.ControlMessage); ok {
+				out = append(out, c)
+				env.Event("responses_built_from_requests_with_junk_header_bytes", 1)
+			}
+		}
 
 		return out
 	}
@@ -658,6 +670,17 @@ func c03Control(env *fw.Env, i int64, kind int, v uint8) {
 				return
 			}
 			c03CheckControl(env, r, rsp, e37.LinktestRsp(reqM), cs)
+		}
+		// a Linktest.req carrying a session id other than 0xFFFF (re-stamped, or as a peer sent it): the response still
+		// carries 0xFFFF
+		for _, req := range viaDecode(hsms.NewLinktestReq(sys).WithSessionID(sess)) {
+			rsp, err := hsms.NewLinktestRsp(req)
+			if err != nil || rsp == nil {
+				env.Event("linktest_rsp_refused_for_request_with_session", 1)
+				continue
+			}
+			c03CheckControl(env, r, rsp, e37.LinktestRsp(reqM), cs)
+			env.Event("linktest_rsp_from_request_with_session", 1)
 		}
 	case 6:
 		c03CheckControl(env, r, hsms.NewSeparateReq(sess, sys), e37.SeparateReq(sess, sys), cs)
